@@ -174,6 +174,8 @@ function mkRep(id) {
   case "allow_empty": return [];
   case "allow_h": return ["h", "a"];
   case "allow_px": return new Proxy(["b"], {});
+  case "allow_ls": return ["\ud800", "\ud800"];
+  case "allow_fdls": return ["\ufffd", "\ud800", "a"];
   }
   throw new Error("unknown replacer " + id);
 }
